@@ -238,6 +238,20 @@ def coupled_state(F):
             r.violate("%s | partial rebuild" % fn["path"], F.loc(fn),
                       "%s changes curr_mod but rebuilds the module sub-iterator from %s only (needs both metadata and skip_funcs of the new module): the previous module's %s stays in effect" % (
                           fn["name"], sorted(reads), sorted({"metadata", "skip_funcs"} - reads)))
+    # the two cursors index different things (curr_idx: a function in `metadata`; func_iterator.curr_instr: an instruction
+    # of that function): neither is handed to the other level's API
+    for fn in F.find_fns(self_adt="ModuleSubIterator"):
+        if fn.get("body") is None:
+            continue
+        for c in walk(fn["body"]):
+            if c.get("k") == "MethodCall" and (place_path(c["recv"]) or "").endswith("func_iterator") and c.get("args"):
+                for a_ in c["args"]:
+                    pp = place_path(a_) or ""
+                    bad = pp.endswith("self.curr_idx")
+                    r.ob(not bad, {"fn": fn["path"], "call": "func_iterator.%s(%s)" % (c["method"], pp or "..")})
+                    if bad:
+                        r.violate("%s | function cursor passed to func_iterator.%s" % (fn["path"], c["method"]), F.loc(fn, c),
+                                  "%s passes the function cursor `curr_idx` to the instruction sub-iterator's `%s`: a position among functions is compared with a position among instructions" % (fn["name"], c["method"]))
     r.count("cursor_moving_fns", n)
     return r
 
